@@ -57,30 +57,34 @@ Definition action_eqb (a b : action) : bool :=
   | _, _ => false
   end.
 
-(** A local event as recorded (the iteration order is not observable) and the observation. *)
-Inductive xev := XLNet (from : N) (m : msg) | XLProc | XLAct | XLTimer (t : timer) | XLPropose.
+(** A local event as recorded (the iteration order is not observable) and the observation.
+    Messages are written once per case in a table and referred to by index. *)
+Inductive xev := XLNet (from : N) (m : N) | XLProc | XLAct | XLTimer (t : timer) | XLPropose.
 
 Record obs := mkObs {
-  o_outs : list msg;
+  o_outs : list N;
   o_endorsed : option (N * N); o_endorsed_empty : option (N * N); o_committed : option (N * N * bool);
   o_commit_done : bool; o_sealed : option blk;
-  o_q : list msg; o_acts : list action }.
+  o_q : list N; o_acts : list action }.
 
-Definition obs_ok (r : node * list msg) (o : obs) : bool :=
+Definition msg_at (tbl : list msg) (i : N) : msg := nth (N.to_nat i) tbl (MProposal 0 0 0).
+
+Definition obs_ok (tbl : list msg) (r : node * list msg) (o : obs) : bool :=
   let nd := fst r in
-  list_eqb msg_sim (snd r) (o_outs o)
+  list_eqb msg_sim (snd r) (map (msg_at tbl) (o_outs o))
   && opt_eqb pk_eqb (n_endorsed nd) (o_endorsed o)
   && opt_eqb pk_eqb (n_endorsed_empty nd) (o_endorsed_empty o)
   && opt_eqb pke_eqb (n_committed nd) (o_committed o)
   && eqb (n_commit_done nd) (o_commit_done o)
   && opt_eqb blk_eqb (n_sealed nd) (o_sealed o)
-  && list_eqb msg_sim (n_q nd) (o_q o)
+  && list_eqb msg_sim (n_q nd) (map (msg_at tbl) (o_q o))
   && list_eqb action_eqb (n_actions nd) (o_acts o).
 
-Definition candidates (P : params) (self : N) (nd : node) (e : xev) : list (node * list msg) :=
+Definition candidates (P : params) (self : N) (tbl : list msg) (nd : node) (e : xev) : list (node * list msg) :=
   let os := orders (akeys (c_esigs (pool nd))) in
   match e with
-  | XLNet from m => [local_step P self nd (LNet from m false); local_step P self nd (LNet from m true)]
+  | XLNet from i => let m := msg_at tbl i in
+      [local_step P self nd (LNet from m false); local_step P self nd (LNet from m true)]
   | XLProc =>
       (* the order matters only after the head of msgC went into the pool *)
       match n_q nd with
@@ -94,23 +98,23 @@ Definition candidates (P : params) (self : N) (nd : node) (e : xev) : list (node
   | XLPropose => [local_step P self nd LPropose]
   end.
 
-Fixpoint replay (P : params) (self : N) (nd : node) (steps : list (xev * obs)) : option node :=
+Fixpoint replay (P : params) (self : N) (tbl : list msg) (nd : node) (steps : list (xev * obs)) : option node :=
   match steps with
   | [] => Some nd
   | (e, o) :: r =>
-      match find (fun c => obs_ok c o) (candidates P self nd e) with
-      | Some c => replay P self (fst c) r
+      match find (fun c => obs_ok tbl c o) (candidates P self tbl nd e) with
+      | Some c => replay P self tbl (fst c) r
       | None => None
       end
   end.
 
 (** index of the first step the model cannot reproduce (for diagnosis) *)
-Fixpoint first_bad (P : params) (self : N) (nd : node) (steps : list (xev * obs)) (i : nat) : option nat :=
+Fixpoint first_bad (P : params) (self : N) (tbl : list msg) (nd : node) (steps : list (xev * obs)) (i : nat) : option nat :=
   match steps with
   | [] => None
   | (e, o) :: r =>
-      match find (fun c => obs_ok c o) (candidates P self nd e) with
-      | Some c => first_bad P self (fst c) r (S i)
+      match find (fun c => obs_ok tbl c o) (candidates P self tbl nd e) with
+      | Some c => first_bad P self tbl (fst c) r (S i)
       | None => Some i
       end
   end.
@@ -119,13 +123,13 @@ Definition blocks_sim (a b : list blk) : bool :=
   forallb (fun x => existsb (blk_eqb x) b) a && forallb (fun x => existsb (blk_eqb x) a) b.
 
 Inductive case :=
-| CNode (P : params) (self : N) (steps : list (xev * obs)) (signed : list blk) (v d e u : bool)
+| CNode (P : params) (self : N) (tbl : list msg) (steps : list (xev * obs)) (signed : list blk) (v d e u : bool)
 | CBlocks (blocks : list blk) (q : bool).
 
 Definition case_ok (k : case) : bool :=
   match k with
-  | CNode P self steps signed v d e u =>
-      match replay P self node0 steps with
+  | CNode P self tbl steps signed v d e u =>
+      match replay P self tbl node0 steps with
       | None => false
       | Some nd =>
           blocks_sim (map snd (n_signed nd)) signed
